@@ -120,11 +120,44 @@ struct HideCase {
     ap: u32,
 }
 
-fn hide_json(h: &HideCase) -> Value {
+thread_local! {
+    /// the case executed just before the current one in this worker: stored with a violation so
+    /// that a result that depends on the previous call can be replayed (and is reported as a
+    /// verdict of this property instead of an unreproducible observation)
+    static PREV_HIDE: std::cell::RefCell<Option<HideCase>> = const { std::cell::RefCell::new(None) };
+    static PREV_REVEAL: std::cell::RefCell<Option<RevealCase>> = const { std::cell::RefCell::new(None) };
+    /// the first case this worker executed (state set up by the very first call, e.g. a cache
+    /// that is never refreshed, is reproduced by replaying it before the failing case)
+    static FIRST_HIDE: std::cell::RefCell<Option<HideCase>> = const { std::cell::RefCell::new(None) };
+    static FIRST_REVEAL: std::cell::RefCell<Option<RevealCase>> = const { std::cell::RefCell::new(None) };
+}
+
+fn hide_json_plain(h: &HideCase) -> Value {
     json!({"kind":"hide","avp":h.avp.to_json(),"secret_len":h.secret_len,"rv":h.rv,"lp_len":h.lp_len,"ap":h.ap})
 }
 
+fn hide_json(h: &HideCase) -> Value {
+    let mut v = hide_json_plain(h);
+    if let Some(p) = PREV_HIDE.with(|p| p.borrow().clone()) {
+        v["previous_call"] = hide_json_plain(&p);
+    }
+    if let Some(p) = FIRST_HIDE.with(|p| p.borrow().clone()) {
+        v["first_call"] = hide_json_plain(&p);
+    }
+    v
+}
+
 fn check_hide(ctx: &mut Ctx, h: &HideCase) {
+    check_hide_inner(ctx, h);
+    PREV_HIDE.with(|p| *p.borrow_mut() = Some(h.clone()));
+    FIRST_HIDE.with(|p| {
+        if p.borrow().is_none() {
+            *p.borrow_mut() = Some(h.clone());
+        }
+    });
+}
+
+fn check_hide_inner(ctx: &mut Ctx, h: &HideCase) {
     let c12 = ctx.prop == "C12";
     let Some(c) = bridge::avp_to_crate(&h.avp) else { return };
     // ap >= 3 selects the second secret of that length (with the ramp alignment padding)
@@ -133,7 +166,7 @@ fn check_hide(ctx: &mut Ctx, h: &HideCase) {
         4 | 6 => secret_c(h.secret_len),
         _ => secret(h.secret_len),
     };
-    let rv = RandomVector { value: RVS[h.rv] };
+    let rv = RandomVector::from(RVS[h.rv]);
     // length padding contents: distinct octets; all zero (ap 5: what a "strip trailing zeros"
     // heuristic would eat); copies of the value's last octet (ap 6)
     let last = spec::payload_of(&h.avp).last().copied().unwrap_or(0);
@@ -365,14 +398,23 @@ fn replay_hide(ctx: &mut Ctx, v: &Value) {
         eprintln!("machinery: bad hide replay case");
         std::process::exit(2);
     };
-    let h = HideCase {
+    let parse = |v: &Value, avp: SAvp| HideCase {
         avp,
         secret_len: v["secret_len"].as_u64().unwrap_or(0) as usize,
         rv: v["rv"].as_u64().unwrap_or(0) as usize % 3,
         lp_len: v["lp_len"].as_u64().unwrap_or(0) as usize,
         ap: v["ap"].as_u64().unwrap_or(0) as u32,
     };
-    let desc = || hide_json(&h);
+    let h = parse(v, avp);
+    // the recorded earlier calls of the sweep first (its first and its previous call), then the
+    // case itself: state left behind by earlier calls is part of what is replayed
+    for key in ["first_call", "previous_call"] {
+        if let Some(pa) = v.get(key).and_then(|p| SAvp::from_json(&p["avp"]).map(|a| parse(p, a))) {
+            let mut scratch = Ctx::new(&ctx.prop, ctx.tier, 0, 1);
+            check_hide(&mut scratch, &pa);
+        }
+    }
+    let desc = || hide_json_plain(&h);
     ctx.case(&desc, |ctx| check_hide(ctx, &h));
 }
 
@@ -391,8 +433,19 @@ struct RevealCase {
     wrong_key: bool,
 }
 
-fn reveal_json(r: &RevealCase) -> Value {
+fn reveal_json_plain(r: &RevealCase) -> Value {
     json!({"kind":"reveal","attr":r.attr,"vlen":r.vlen,"lo":r.lo,"content":r.content,"secret_len":r.secret_len,"wrong_key":r.wrong_key})
+}
+
+fn reveal_json(r: &RevealCase) -> Value {
+    let mut v = reveal_json_plain(r);
+    if let Some(p) = PREV_REVEAL.with(|p| p.borrow().clone()) {
+        v["previous_call"] = reveal_json_plain(&p);
+    }
+    if let Some(p) = FIRST_REVEAL.with(|p| p.borrow().clone()) {
+        v["first_call"] = reveal_json_plain(&p);
+    }
+    v
 }
 
 fn build_cipher(r: &RevealCase) -> Vec<u8> {
@@ -421,11 +474,21 @@ fn build_cipher(r: &RevealCase) -> Vec<u8> {
 }
 
 fn check_reveal(ctx: &mut Ctx, r: &RevealCase) {
+    check_reveal_inner(ctx, r);
+    PREV_REVEAL.with(|p| *p.borrow_mut() = Some(r.clone()));
+    FIRST_REVEAL.with(|p| {
+        if p.borrow().is_none() {
+            *p.borrow_mut() = Some(r.clone());
+        }
+    });
+}
+
+fn check_reveal_inner(ctx: &mut Ctx, r: &RevealCase) {
     let value = build_cipher(r);
     let hidden_s = SAvp::Hidden { attr: r.attr, value: value.clone() };
     let hidden = bridge::avp_to_crate(&hidden_s).unwrap();
     let sec = if r.wrong_key { secret(r.secret_len + 1) } else { secret(r.secret_len) };
-    let rv = RandomVector { value: RVS[1] };
+    let rv = RandomVector::from(RVS[1]);
     let want = spec::reveal(&hidden_s, &sec, &RVS[1]);
     let prop = ctx.prop.clone();
     let viol = |ctx: &mut Ctx, sig: String, detail: String| {
@@ -614,6 +677,19 @@ pub fn replay_reveal(ctx: &mut Ctx, v: &Value) {
     };
     println!("  hidden value: {}", hex(&build_cipher(&r)));
     let _ = unhex;
-    let desc = || reveal_json(&r);
+    for key in ["first_call", "previous_call"] {
+        let Some(p) = v.get(key) else { continue };
+        let pr = RevealCase {
+            attr: p["attr"].as_u64().unwrap_or(0) as u16,
+            vlen: p["vlen"].as_u64().unwrap_or(0) as usize,
+            lo: p["lo"].as_u64().unwrap_or(0) as u16,
+            content: p["content"].as_u64().unwrap_or(0) as u8,
+            secret_len: p["secret_len"].as_u64().unwrap_or(0) as usize,
+            wrong_key: p["wrong_key"].as_bool().unwrap_or(false),
+        };
+        let mut scratch = Ctx::new(&ctx.prop, ctx.tier, 0, 1);
+        check_reveal(&mut scratch, &pr);
+    }
+    let desc = || reveal_json_plain(&r);
     ctx.case(&desc, |ctx| check_reveal(ctx, &r));
 }
